@@ -15,6 +15,8 @@ struct CycleDetector<'a> {
 
 impl<'a> CycleDetector<'a> {
     fn detect_from(&mut self, from: &'a str, path: &mut Vec<(&'a str, Pos)>) {
+        #[cfg(async_graphql_verif)]
+        crate::verif_hooks::count("no_fragment_cycles");
         self.visited.insert(from);
 
         if !self.spreads.contains_key(from) {
